@@ -7,30 +7,56 @@ import CentrifugeVerif.Proofs.HTTPStreamFraming
 sequence of messages handed to the transport; `EventSource.parse`, `Lines.split`,
 `Varint.decodeFrames` are the standards-conforming client-side decoders (`Spec/EventSource.lean`).
 
-Full statement of the property: *for every message list the JSON / Protobuf protocol can produce*
-the decoders return exactly that list.  For Protobuf this is proved for all byte strings.  For the
-JSON transports it needs that no message contains the record separator:
-
-* HTTP-stream: no raw LF — guaranteed by the external JSON encoder (`protocol.Raw.MarshalJSON`
-  strips `\n`), asserted on every run of the check;
-* SSE: no raw LF **and no raw CR**.  The encoder does *not* strip CR, and CR is legal insignificant
-  white space of a JSON payload, so the unconditional statement is false for SSE
-  (finding C32-1, counter-witness `sse_cr_breaks_event` below); the theorem is therefore the
-  `_partial` one with the excluding hypothesis `NoRawNewline`.
+For Protobuf the round trip is proved for all byte strings.  For the JSON transports the only
+hypothesis is `NoRawLF` (no message contains a raw LF): the external JSON encoder
+(`protocol.Raw.MarshalJSON`) strips `\n`, and the check asserts it for every frame on every run.
+Raw CR — legal insignificant white space of a JSON payload, not stripped by the encoder — is harmless
+for the HTTP-stream and is removed by the SSE handler since commit 68b38e53 (finding C32-1, fixed):
+the SSE client receives the message minus its raw CR bytes, a JSON-equal text (the check compares
+them as JSON values).  Before the fix the theorem needed `NoRawNewline` and had the decided
+counter-witness `parse (rawBody [{"a":\r1}]) = [{"a":]`, kept below as `sse_cr_broke_raw_framing`.
 -/
 namespace CentrifugeVerif.C32
 open CentrifugeVerif.EventSource CentrifugeVerif.HTTPStream
 
-/-- **SSE**: if no message contains a raw CR/LF, an EventSource client dispatches exactly one
-`message` event per message, in order, whose data is the message (and no `id`/`event` is set). -/
-theorem sse_parse_frame_partial (msgs : List Bytes) (h : NoRawNewline msgs) :
-    parse (SSE.body msgs) = msgs.map (fun m => (⟨[], m, []⟩ : Event)) := by
-  unfold parse SSE.body
-  have hb : stripBOM (SSE.preamble ++ msgs.flatMap SSE.frame) = SSE.preamble ++ msgs.flatMap SSE.frame := by
+/-- framing byte strings *as they are* is only safe without raw CR/LF (the pre-68b38e53 handler) -/
+theorem sse_raw_frames_parse (msgs : List Bytes) (h : NoRawNewline msgs) :
+    parse (SSE.rawBody msgs) = msgs.map (fun m => (⟨[], m, []⟩ : Event)) := by
+  unfold parse SSE.rawBody
+  have hb : stripBOM (SSE.preamble ++ msgs.flatMap SSE.rawFrame) = SSE.preamble ++ msgs.flatMap SSE.rawFrame := by
     simp [SSE.preamble, stripBOM]
   rw [hb, List.foldl_append, preamble_noop, feed_frames msgs {} h ⟨rfl, rfl, rfl, rfl⟩]
   simp
 
+theorem sse_body_eq_raw (msgs : List Bytes) : SSE.body msgs = SSE.rawBody (msgs.map SSE.stripCR) := by
+  unfold SSE.body SSE.rawBody SSE.frame
+  rw [List.flatMap_map]
+
+/-- **SSE**: if no message contains a raw LF, an EventSource client dispatches exactly one `message`
+event per message, in order, whose data is the message without its raw CR bytes (and no `id`/`event`
+is set). -/
+theorem sse_parse_frame (msgs : List Bytes) (h : NoRawLF msgs) :
+    parse (SSE.body msgs) = msgs.map (fun m => (⟨[], SSE.stripCR m, []⟩ : Event)) := by
+  rw [sse_body_eq_raw, sse_raw_frames_parse]
+  · simp [List.map_map, Function.comp_def]
+  · intro m hm b hb
+    rw [List.mem_map] at hm
+    obtain ⟨m0, hm0, rfl⟩ := hm
+    have hf := List.mem_filter.mp hb
+    exact ⟨h m0 hm0 b hf.1, by simpa using hf.2⟩
+
+/-- messages without raw CR arrive byte for byte -/
+theorem sse_parse_frame_exact (msgs : List Bytes) (h : NoRawNewline msgs) :
+    parse (SSE.body msgs) = msgs.map (fun m => (⟨[], m, []⟩ : Event)) := by
+  rw [sse_parse_frame msgs (fun m hm b hb => (h m hm b hb).1)]
+  apply List.map_congr_left
+  intro m hm
+  have : SSE.stripCR m = m := by
+    unfold SSE.stripCR
+    rw [List.filter_eq_self]
+    intro b hb
+    simpa using (h m hm b hb).2
+  rw [this]
 
 /-- **HTTP-stream, JSON**: if no message contains a raw LF, the LF-delimited records of the body
 are exactly the messages, in order (CR inside a message is harmless here). -/
@@ -62,33 +88,18 @@ theorem uvarint_roundtrip (n : Nat) (rest : Bytes) :
 example : NoRawNewline [ascii "{\"id\":1,\"connect\":{}}", ascii "{}"] := by unfold NoRawNewline; decide
 example : NoRawLF [ascii "{\"a\":\r1}"] := by unfold NoRawLF; decide
 
-/-- a raw LF inside a message splits / truncates the SSE event … -/
+/-- a raw LF inside a message still splits / truncates the SSE event (`NoRawLF` is necessary) … -/
 theorem sse_lf_breaks_event :
     parse (SSE.body [ascii "{\"a\":\n1}"]) = [⟨[], ascii "{\"a\":", []⟩] := by decide
 
-/-- … and so does a raw CR (**finding C32-1**: `{"a":\r1}` is a payload the JSON protocol accepts and
-hands to the SSE transport unchanged; the client receives the event data `{"a":`). -/
-theorem sse_cr_breaks_event :
-    parse (SSE.body [ascii "{\"a\":\r1}"]) = [⟨[], ascii "{\"a\":", []⟩] := by decide
+/-- … a raw CR no longer does: the former witness of finding C32-1 arrives as one event with the
+JSON-equal text `{"a":1}` … -/
+theorem sse_cr_dropped :
+    parse (SSE.body [ascii "{\"a\":\r1}"]) = [⟨[], ascii "{\"a\":1}", []⟩] := by decide
 
-theorem sse_cr_not_intact :
-    parse (SSE.body [ascii "{\"a\":\r1}"]) ≠ [⟨[], ascii "{\"a\":\r1}", []⟩] := by decide
-
-/-- removing raw CR/LF bytes from a message (both are only insignificant white space in a JSON text;
-inside JSON strings they are always escaped) -/
-def stripCRLF (m : Bytes) : Bytes := m.filter (fun b => b != 10 && b != 13)
-
-/-- a possible repair of finding C32-1 is sound for **all** messages: if `handler_sse.go` (or the JSON
-encoder, as it already does for LF) dropped raw CR/LF bytes, every message would arrive as exactly
-one event carrying the stripped (JSON-equivalent) text. -/
-theorem sse_strip_fix_sound (msgs : List Bytes) :
-    parse (SSE.body (msgs.map stripCRLF)) = (msgs.map stripCRLF).map (fun m => (⟨[], m, []⟩ : Event)) := by
-  apply sse_parse_frame_partial
-  intro m hm b hb
-  rw [List.mem_map] at hm
-  obtain ⟨m0, _, rfl⟩ := hm
-  have := (List.mem_filter.mp hb).2
-  simpa using this
+/-- … whereas framing it as it is (the handler before 68b38e53) truncated the event at the CR -/
+theorem sse_cr_broke_raw_framing :
+    parse (SSE.rawBody [ascii "{\"a\":\r1}"]) = [⟨[], ascii "{\"a\":", []⟩] := by decide
 
 /-- a raw LF inside a message splits the HTTP-stream record -/
 theorem json_lf_breaks_record :
